@@ -136,6 +136,12 @@ MOTIFS = {
     'M15_losing_candidate_private_ancestor': spec([
         node(0), node(1, fails=FAIL), node(2, [('a', inp(1))]), node(3), node(4, [('a', one(2, 3))]), node(5, fails=FAIL),
         node(6, [('a', inp(4)), ('b', inp(5))]), node(7, [('a', inp(4))]), node(8, [('a', one(6, 7))])]),
+    # two unnamed switches over one decision node, with different case tables (one consumer each)
+    'M16_two_unnamed_switches_one_decider': spec([
+        node(0), node(1, body=LAB), node(2), node(3), node(4), node(5),
+        node(6, [('a', sw(1, [('l0', 2), ('l1', 3)], name=None))]),
+        node(7, [('a', sw(1, [('l0', 4), ('l1', 5)], name=None))]),
+        node(8, [('a', inp(6)), ('b', inp(7))])]),
     # wide layer (sibling concurrency) with retries
     'M9_wide_layer': spec([node(0)] + [node(i, [('a', inp(0))]) for i in range(1, 7)] +
                           [node(7, [('abcdef'[i - 1], inp(i)) for i in range(1, 7)])]),
